@@ -26,7 +26,7 @@ import tempfile
 import time
 from concurrent.futures import ThreadPoolExecutor
 
-GEN_DEPS = []
+GEN_DEPS = ["SevenZipDecompressor", "SevenZipDecompressor._decompress", "SevenZipDecompressor._read_data", "SevenZipDecompressor.decompress", "calculate_crc32"]
 LEVEL = "proof"
 TRUSTED_BASE = [
     "Coq 8.16.1 kernel, vm_compute; no axioms (Print Assumptions: closed)",
@@ -1193,6 +1193,8 @@ def explore_finish(ctx, rep, tier, table, handle):
 def run(ctx):
     rep, tier = ctx["rep"], ctx["tier"]
     rng = random.Random(ctx["seed"])
+    from harness import decgen
+    decgen.check_decompress(ctx, rep, random.Random(ctx["seed"] + 7), 500 if tier == "quick" else 5000)
     rep.cov["rule"] = ("(a1) random toy chains (tags copy/lagging/expander/honest expander, 1-3 stages, short reads, gates, "
                        "max_length -1..200) through the real decompress/Worker.decompress/compress vs Mem.v, distinct by case; "
                        "(a2) every real codec family x data pattern x (block, max_length) with the proven bounds checked on every call; "
